@@ -1262,3 +1262,11 @@ class Explorer(object):
 
   def decision_string(self):
     return ''.join('1' if e.val else '0' for e in self.log)
+
+
+# a symbolic number is a number: `isinstance(x, numbers.Number)` in analysed
+# code (encoder_decoder.extend_event_sequences) must not take the branch for
+# non-numeric values
+import numbers as _numbers  # pylint: disable=g-import-not-at-top
+_numbers.Number.register(SymInt)
+_numbers.Number.register(SymReal)
